@@ -238,6 +238,9 @@ def compare_outcome(impl, model, opts=None):
         b = sorted(canon(d) for d in mr.get("diags", []))
         if a != b:
             diffs.append(("run.diags", ir.get("diags"), mr.get("diags")))
+        # the keys of the merged map (= the files of the printed report): one per file with at least one diagnostic
+        if "files" in ir and "files" in mr and sorted(ir["files"]) != sorted(mr["files"]):
+            diffs.append(("run.files", sorted(ir["files"]), sorted(mr["files"])))
     if impl.get("exit") != model.get("exit"):
         diffs.append(("exit", impl.get("exit"), model.get("exit")))
     return diffs
